@@ -284,6 +284,10 @@ func (w *World) Build(c Config) *WF {
 			out := w.nextOutcome()
 			w.ob("fn:delete(o%d)->%s", o.N, out)
 			w.Mon.onInvoke(Invocation{Kind: "delete", Outcome: out})
+			if strings.HasPrefix(out, "l") { // the role is lost while the delete function runs; it reports an error
+				w.loseCurrentLease()
+				return errors.New("custom delete failed " + out)
+			}
 			if strings.HasPrefix(out, "e") || out == "x" {
 				return errors.New("custom delete failed " + out)
 			}
@@ -425,6 +429,19 @@ func (w *World) timerFn(status int) workflow.TimerFunc[Obj, St] {
 	}
 }
 
+// loseCurrentLease: the role scheduler takes the role away from the process whose user function is running (its lease context is
+// cancelled from outside, mid-function).
+func (w *World) loseCurrentLease() {
+	role := w.S.Current()
+	w.S.mu.Lock()
+	l := w.S.leases[role]
+	w.S.mu.Unlock()
+	if l != nil && role != "api" {
+		l.cancel()
+		w.Mon.leaseLost(role)
+	}
+}
+
 func (w *World) hookFn(rs int) workflow.RunStateChangeHookFunc[Obj, St] {
 	return func(ctx context.Context, r *workflow.TypedRecord[Obj, St]) error {
 		w.detCtx = detCtx{kind: "hook", status: rs, objN: r.Object.N, run: w.RunOrd(r.RunID)}
@@ -432,6 +449,10 @@ func (w *World) hookFn(rs int) workflow.RunStateChangeHookFunc[Obj, St] {
 		w.ob("fn:hook%d(r%d,rs%d,st%d,v%d,o%d)->%s", rs, w.RunOrd(r.RunID), int(r.RunState), int(r.Status), r.Meta.Version, r.Object.N, out)
 		w.Mon.onInvoke(Invocation{Kind: "hook", Proc: w.S.Current(), Run: w.RunOrd(r.RunID), Status: rs, SeenObj: r.Object.N, SeenRS: int(r.RunState),
 			SeenVer: r.Meta.Version, Persisted: w.persisted(r.RunID), Outcome: out, Now: w.Clk.Now(), Depth: 1})
+		if strings.HasPrefix(out, "l") { // the role is lost while the hook runs; the hook reports an error
+			w.loseCurrentLease()
+			return errors.New("hook failed " + out)
+		}
 		if strings.HasPrefix(out, "e") || out == "x" {
 			return errors.New("hook failed " + out)
 		}
